@@ -27,10 +27,10 @@ import (
 func init() {
 	core.Register(&core.Prop{
 		ID: "C05", Level: "fault_enumeration",
-		Rule:        "cases are two-engine scenarios: 30-70 sends per side, 1-4 faults from {cut after k bytes of either direction (k inside a frame or at a boundary), cut during logon, cut during a replay, immediate cut, restart of either engine on its file store}, sends continuing while disconnected, memory and file stores, resets disabled; non-trivial = scenario in which a fault fired and a ResendRequest crossed the proxy afterwards; distinct by (fault kinds, store, number of faults fired)",
-		Assumptions: []string{"a message counts as accepted when SendToTarget returned nil", "the comparison is made on a logical clock: declared failed only after 6 Heartbeats crossed the proxy in each direction after the last fault with the lists still different; duplicates and foreign deliveries fail at once", "a 150 s wall-clock watchdog yields inconclusive"},
+		Rule:        "cases are two-engine scenarios: 30-70 sends per side, 1-4 faults from {cut after k bytes of either direction (k inside a frame or at a boundary), cut during logon, cut during a replay, immediate cut, restart of either engine on its file store}, sends continuing while disconnected, memory and file stores, resets disabled, chunked recovery in a sixth of them; non-trivial = scenario in which a fault fired and a ResendRequest crossed the proxy afterwards; distinct by (fault kinds, store, number of faults fired). Part backlog: the link is held down while one or both applications submit up to 64 MB of messages, then stays up (both engines replay to each other at once); non-trivial = both sides had at least 8 MB",
+		Assumptions: []string{"a message counts as accepted when SendToTarget returned nil", "the comparison is made on a logical clock: declared failed only after 6 Heartbeats crossed the proxy in each direction after the last fault with the lists still different; duplicates and foreign deliveries fail at once", "a 150 s wall-clock watchdog yields inconclusive", "backlog part: a run that stops moving is a violation only when two stack dumps 3 s apart, with no byte crossing the link in between, both show the wait-for cycle (sessions blocked on their writers, readers blocked on their sessions); otherwise the 240 s watchdog yields inconclusive"},
 		FloorQuick:  4, FloorThorough: 20,
-		Parts: []core.Part{{Name: "two-engines", Race: true, Run: run, QuickTimeoutS: 900}},
+		Parts: []core.Part{{Name: "two-engines", Race: true, Run: run, QuickTimeoutS: 900}, {Name: "backlog", Run: runBacklog, QuickTimeoutS: 900, ThoroughTimeoutS: 2400}},
 	})
 }
 
